@@ -17,6 +17,8 @@ struct Call {
     epochs: i32,
     n: usize,
     dseed: u32,
+    /// early-stopping tolerance when validation data is passed (None = no validation data)
+    val_tol: Option<i32>,
 }
 
 #[derive(Debug, Clone)]
@@ -65,12 +67,15 @@ fn decode(tape: &[u32]) -> Case {
         }
     }
     layers.push(fb);
-    if t.bool() {
+    let tail_dense = t.bool();
+    if tail_dense {
         layers.push(LayerSpec::Dense { out: t.usize(1, 4), act: gen_act(&mut t, &o), bias: t.bool(), dropout: None });
     }
     let kind = gen_optimizer(&mut t);
     let ncalls = t.usize(1, 4);
-    let calls = (0..ncalls).map(|_| Call { batch: t.usize(1, 4), epochs: t.usize(1, 3) as i32, n: t.usize(1, 6), dseed: t.raw() }).collect();
+    let calls: Vec<Call> = (0..ncalls).map(|_| Call { batch: t.usize(1, 4), epochs: t.usize(1, 4) as i32, n: t.usize(1, 6), dseed: t.raw(), val_tol: [None, None, Some(1), Some(2), Some(1000)][t.pick(5)] }).collect();
+    // validate() is only implemented for networks that end in a dense layer
+    let calls = calls.into_iter().map(|mut c| { if !tail_dense { c.val_tol = None; } c }).collect();
     Case { spec: NetSpec { input, layers }, block, kind, calls, wseed: t.raw() }
 }
 
@@ -171,7 +176,16 @@ fn check(case: &Case, ev: &mut CaseEv) -> CheckResult {
             .collect();
         let ys: Vec<Tensor> = (0..call.n).map(|i| tens::build(&out_dims, &payload(call.dseed.wrapping_add(500 + i as u32 * 7), 1, count(&out_dims), 1.0))).collect();
         let (xr, yr): (Vec<&Tensor>, Vec<&Tensor>) = (xs.iter().collect(), ys.iter().collect());
-        let r = catch(std::panic::AssertUnwindSafe(|| net.learn(&xr, &yr, None, call.batch, call.epochs, None)));
+        // validation data = the training data with negated targets (the loss then rises while training falls)
+        let vys: Vec<Tensor> = ys.iter().map(|y| { let d = tens::shape_dims(&y.shape); tens::build(&d, &tens::flat(y).iter().map(|v| -v).collect::<Vec<f32>>()) }).collect();
+        let vyr: Vec<&Tensor> = vys.iter().collect();
+        if call.val_tol.is_some() {
+            ev.class("learn with validation data");
+        }
+        let r = catch(std::panic::AssertUnwindSafe(|| match call.val_tol {
+            Some(tol) => net.learn(&xr, &yr, Some((&xr, &vyr, tol)), call.batch, call.epochs, None),
+            None => net.learn(&xr, &yr, None, call.batch, call.epochs, None),
+        }));
         match r {
             Ok(_) => {}
             Err(p) => {
@@ -226,7 +240,7 @@ impl Prop for C10 {
         Some(2)
     }
     fn rule(&self) -> String {
-        "tape-decoded history: small network = optional shape-keeping prefix layer + feedback block (1-3 dense layers, or 1-2 shape-preserving convolution / deconvolution layers; bias on/off; loops 1-4; any skip flags; coupling accumulation in {add, subtract, multiply, mean}) + optional dense layer; one of five optimizers with option variants; 1-4 learn() calls with batch 1-4, 1-3 epochs, 1-6 samples (a quarter of them all-zero), learning rates from 1e-5 to 0.1. Invariant after creation and after every call: all unrolled repetitions of every block layer hold bit-identical weights, biases and kernels (read through the hooks), and the `parameters:` number of the Display text equals the model count with each shared parameter once. Kernel blocks with subtract / multiply coupling abort the first step with 'Invalid sub./mul.' (refused loudly: classified unsupported, not asserted on); NaN-diverged runs are discards. Non-trivial: loops >= 2 and weights changed. Distinct = (block and network specification, optimizer, call pattern).".into()
+        "tape-decoded history: small network = optional shape-keeping prefix layer + feedback block (1-3 dense layers, or 1-2 shape-preserving convolution / deconvolution layers; bias on/off; loops 1-4; any skip flags; coupling accumulation in {add, subtract, multiply, mean}) + optional dense layer; one of five optimizers with option variants; 1-4 learn() calls with batch 1-4, 1-4 epochs, with or without validation data (early-stopping tolerance 1, 2 or 1000), 1-6 samples (a quarter of them all-zero), learning rates from 1e-5 to 0.1. Invariant after creation and after every call: all unrolled repetitions of every block layer hold bit-identical weights, biases and kernels (read through the hooks), and the `parameters:` number of the Display text equals the model count with each shared parameter once. Kernel blocks with subtract / multiply coupling abort the first step with 'Invalid sub./mul.' (refused loudly: classified unsupported, not asserted on); NaN-diverged runs are discards. Non-trivial: loops >= 2 and weights changed. Distinct = (block and network specification, optimizer, call pattern).".into()
     }
     fn assumptions(&self) -> Vec<String> {
         vec!["'supported coupling' follows the code's own loud refusals: Overwrite is unimplemented!, subtract/multiply for kernel blocks panic before any state is observable".into()]
